@@ -773,6 +773,9 @@ func (fc *FnCtx) frameSpecOf() *frameSpec {
 				tn := specTypeText(x.Args[0])
 				di := strings.LastIndex(tn, ".")
 				if t := r.eng.resolveType(r.pkg, tn[:di]); t != nil {
+					if g := r.eng.ghostField(t, tn[di+1:]); g != nil {
+						wholeOK["F$"+structKeyName(t)+".ghost_"+g.Name] = true
+					}
 					if _, su, _ := derefStruct(t); su != nil {
 						if i := fieldIndex(su, tn[di+1:]); i >= 0 {
 							k, _ := r.fieldKey(t, su.Field(i))
